@@ -101,15 +101,27 @@ func (pe *PodEvictor) TotalEvicted() int {
 
 // NodeLimitExceeded checks if the number of evictions for a node was exceeded
 func (pe *PodEvictor) NodeLimitExceeded(nodeName string) bool {
+	pe.lock.RLock()
+	defer pe.lock.RUnlock()
+	return pe.nodeLimitExceededLocked(nodeName)
+}
+
+func (pe *PodEvictor) nodeLimitExceededLocked(nodeName string) bool {
 	if pe.maxPodsToEvictPerNode != nil {
-		return pe.nodepodCount[nodeName] == *pe.maxPodsToEvictPerNode
+		return pe.nodepodCount[nodeName] >= *pe.maxPodsToEvictPerNode
 	}
 	return false
 }
 
 func (pe *PodEvictor) NamespaceLimitExceeded(namespace string) bool {
+	pe.lock.RLock()
+	defer pe.lock.RUnlock()
+	return pe.namespaceLimitExceededLocked(namespace)
+}
+
+func (pe *PodEvictor) namespaceLimitExceededLocked(namespace string) bool {
 	if pe.maxPodsToEvictPerNamespace != nil {
-		return pe.namespacePodCount[namespace] == *pe.maxPodsToEvictPerNamespace
+		return pe.namespacePodCount[namespace] >= *pe.maxPodsToEvictPerNamespace
 	}
 	return false
 }
@@ -117,14 +129,19 @@ func (pe *PodEvictor) NamespaceLimitExceeded(namespace string) bool {
 func (pe *PodEvictor) Evict(ctx context.Context, pod *corev1.Pod, opts framework.EvictOptions) bool {
 	framework.FillEvictOptionsFromContext(ctx, &opts)
 
+	// The limit check, the eviction and the counting form one critical section: concurrent
+	// callers must not all pass the check before any of them has been counted.
+	pe.lock.Lock()
+	defer pe.lock.Unlock()
+
 	nodeName := pod.Spec.NodeName
-	if pe.NodeLimitExceeded(nodeName) {
+	if pe.nodeLimitExceededLocked(nodeName) {
 		metrics.PodsEvicted.With(map[string]string{"result": "maximum number of pods per node reached", "strategy": opts.PluginName, "namespace": pod.Namespace, "node": nodeName}).Inc()
 		klog.ErrorS(fmt.Errorf("maximum number of evicted pods per node reached"), "Error evicting pod", "limit", *pe.maxPodsToEvictPerNode, "node", nodeName)
 		return false
 	}
 
-	if pe.NamespaceLimitExceeded(pod.Namespace) {
+	if pe.namespaceLimitExceededLocked(pod.Namespace) {
 		metrics.PodsEvicted.With(map[string]string{"result": "maximum number of pods per namespace reached", "strategy": opts.PluginName, "namespace": pod.Namespace, "node": nodeName}).Inc()
 		klog.ErrorS(fmt.Errorf("maximum number of evicted pods per namespace reached"), "Error evicting pod", "limit", *pe.maxPodsToEvictPerNamespace, "namespace", pod.Namespace)
 		return false
@@ -141,15 +158,11 @@ func (pe *PodEvictor) Evict(ctx context.Context, pod *corev1.Pod, opts framework
 			return false
 		}
 
-		func() {
-			pe.lock.Lock()
-			defer pe.lock.Unlock()
-			if pod.Spec.NodeName != "" {
-				pe.nodepodCount[pod.Spec.NodeName]++
-			}
-			pe.namespacePodCount[pod.Namespace]++
-			pe.totalCount++
-		}()
+		if pod.Spec.NodeName != "" {
+			pe.nodepodCount[pod.Spec.NodeName]++
+		}
+		pe.namespacePodCount[pod.Namespace]++
+		pe.totalCount++
 
 		metrics.PodsEvicted.With(map[string]string{"result": "success", "strategy": opts.PluginName, "namespace": pod.Namespace, "node": nodeName}).Inc()
 
